@@ -47,7 +47,9 @@ func TestVerif(t *testing.T) {
 		"C05": C05{},
 		"C09": C09{},
 		"C11": C11{},
+		"C14": C14{},
 		"C15": C15{},
+		"C16": C16{},
 		"C19": C19{},
 	})
 }
